@@ -2,10 +2,14 @@
 
 package command
 
-import "sort"
+import (
+	"sort"
+	"sync"
+)
 
 // Added to package command by the verification overlay only (never committed to the repository):
-// read-only inspection of DefaultLocker's unexported state for the C15 differential.
+// read-only inspection of DefaultLocker's unexported state for the C15 differential, and the locker's mutex itself
+// (the harness holds it to decide in which order a release and a cancellation path get it, see harness/lock.go "handover").
 
 // VerifLockView is a consistent snapshot of the lock tables and of the intents queue (front first).
 type VerifLockView struct {
@@ -36,4 +40,10 @@ func (defaultLocker *DefaultLocker) VerifQueueLen() int {
 	defaultLocker.mu.Lock()
 	defer defaultLocker.mu.Unlock()
 	return defaultLocker.intents.Length()
+}
+
+// VerifMu is the locker's own mutex.  The harness only ever locks it, waits until the goroutines it wants to order are
+// parked on it, and unlocks it; it never touches the state the mutex protects.
+func (defaultLocker *DefaultLocker) VerifMu() *sync.Mutex {
+	return &defaultLocker.mu
 }
